@@ -109,6 +109,8 @@ pub fn act_name(a: &VAct) -> &'static str {
         VAct::ShrinkToFit => "shrink_to_fit",
         VAct::CloneCmp => "clone",
         VAct::IntoIter { .. } => "into_iter",
+        VAct::IntoIterX { .. } => "into_iter_methods",
+        VAct::Inspect { .. } => "inspect",
         VAct::IntoBumpSlice { .. } => "into_bump_slice",
         VAct::IntoBoxed => "into_boxed_slice",
         VAct::FromIterIn { .. } => "from_iter_in",
@@ -284,6 +286,20 @@ fn apply<E: Elem, V: VecLike<E>>(slot: &mut Option<V>, world: u8, act: VAct, lab
             obs.n(c.sl().iter().zip(vec.sl().iter()).all(|(a, b)| a.val() == b.val()) as i64);
             drop(c);
         }
+        VAct::Inspect { k } => {
+            let mut other = vec.v_clone();
+            if k == 1 && n > 0 {
+                // compare with a vector that differs in its last element or is one shorter
+                other.v_pop();
+            }
+            vec.v_inspect(&other, k, &mut obs);
+            drop(other);
+        }
+        VAct::IntoIterX { k } => {
+            let fresh = vec.fresh();
+            let old = slot.replace(fresh).unwrap();
+            old.v_into_iter_x(k, &mut obs);
+        }
         VAct::IntoIter { front, back, forget } => {
             let fresh = vec.fresh();
             let old = slot.replace(fresh).unwrap();
@@ -321,7 +337,9 @@ fn apply<E: Elem, V: VecLike<E>>(slot: &mut Option<V>, world: u8, act: VAct, lab
             drop(old);
         }
         VAct::CollectIn { n: k } => {
-            let nv = vec.from_iter_like(src(world, labels, k as usize, 1), 1);
+            // n >= 100: the Option / Result forms of collect_in (how = (n - 100) / 50 + 2) over 3 elements
+            let (cnt, how) = if k >= 100 { (3usize, (k - 100) / 50 + 2) } else { (k as usize, 1) };
+            let nv = vec.from_iter_like(src(world, labels, cnt, 1), how);
             let old = slot.replace(nv).unwrap();
             drop(old);
         }
@@ -864,7 +882,7 @@ impl VecModel {
             }
         }
         // every RangeBounds form over the index codes
-        let modes: &[u8] = if t { &[0, 1, 2, 3, 4] } else { &[0, 3, 4] };
+        let modes: &[u8] = if t { &[0, 1, 2, 3, 4] } else { &[0, 2, 3, 4] };
         for sb in 0..3u8 {
             for &si in if sb == 0 { &[0u8][..] } else { codes } {
                 for eb in 0..3u8 {
@@ -926,6 +944,12 @@ impl VecModel {
         }
         acts.push(VAct::ShrinkToFit);
         acts.push(VAct::CloneCmp);
+        for k in 0..3u8 {
+            acts.push(VAct::Inspect { k });
+        }
+        for k in 0..9u8 {
+            acts.push(VAct::IntoIterX { k });
+        }
         for (f, b) in [(0u8, 0u8), (1, 0), (0, 1), (1, 1), (200, 0)] {
             acts.push(VAct::IntoIter { front: f, back: b, forget: false });
             acts.push(VAct::IntoIter { front: f, back: b, forget: true });
@@ -942,6 +966,11 @@ impl VecModel {
             }
         }
         acts.push(VAct::CollectIn { n: 2.min(l as u8) });
+        if l >= 3 && container == 0 {
+            for how in [2u8, 3, 4, 5] {
+                acts.push(VAct::CollectIn { n: 100 + (how - 2) * 50 });
+            }
+        }
         for k in [0u8, 1, 3] {
             if k as usize <= l {
                 acts.push(VAct::VecMacro { n: k, repeat: false });
